@@ -215,8 +215,7 @@ def run(ctx):
     ctx.cov['correspondence_disagreements'] = nbad
     ctx.cov['dea_histories_that_raised'] = nraised
     # the property itself says Dea never raises: a raising history is a failing input whatever the model says
-    if nraised or ctx.broken or ctx.thorough:
-        search(ctx, ctx.n(400, 6000))
+    search(ctx, ctx.n(400, 6000) if (nraised or ctx.broken or ctx.thorough) else 120)
     ctx.assumptions += ['EpsAlg theorems hold over any field with the 1e-60 guard idealised away (no table difference vanishes); Dea theorems over R / any Ops',
                         'finiteness of Dea\'s outputs for finite float input and agreement with dea3/EpsAlg outside the guards are explored (sweep), not proved']
     return ctx.finish(level='proof', checker_cmd='make -C coq Props/C14.vo + coqc build/cases/C14_*.v',
